@@ -4,7 +4,9 @@ The real `cond run` executes under the FakeKernel; the registered SIGINT/SIGTERM
 a byte-code boundary of the main thread) at the k-th executed line of Conductor's own code, for every k of a reference
 execution (quick: every line of the execution modules + a stride over the rest), plus right after fork_exec returns.
 Each aborted execution is judged by TLC against RunObs clauses AllLiveKilled, AbortedNotInternal, RowsOnlyForExit0.
-Executor.tla's abort windows are described in DESIGN.md (section 6, C16).
+Executor.tla models the interrupt as an Abort action enabled (once) at every step, with start_execution split into
+child-forked / Popen-bound / handle-returned / registered: TLC shows AllLiveKilled and AbortedNotInternal hold in the
+design except when the interrupt lands in the two windows listed as known findings K1 and K2.
 """
 import json
 import os
@@ -13,6 +15,7 @@ import random
 from .. import common as C
 from .. import runcheck as RC
 from .. import runobs as R
+from . import runfamily
 
 PROP = "C16"
 CLAUSES = {"AllLiveKilled", "AbortedNotInternal", "RowsOnlyForExit0"}
@@ -50,6 +53,17 @@ def main(tier):
     rep = C.Report(PROP, tier, "fault_enumeration")
     rng = random.Random(rep.seed + 16)
     RC.warm()
+    # layer 1: Executor.tla with the Abort action: C16 holds in the design except in the two known windows
+    kinds = ["exp", "group"] if tier == "quick" else ["exp", "cmd", "group"]
+    cfg = runfamily.exec_cfg("_gen_Exec_C16.cfg", 3, kinds, 2, [False], False, runfamily.MODEL_SECOND_REAPER,
+                             invs=["C01", "C04", "C09", "C16", "C16Rows", "PipeMatchesList"], allow_abort=True)
+    mc = C.run_tlc("Executor.tla", cfg=cfg, timeout=1200 if tier == "quick" else 3000)
+    if mc.error or (mc.timed_out and tier == "quick"):
+        rep.machinery("TLC Executor (abort) model check failed: %s" % (mc.error or "timeout"))
+        return rep.finish()
+    if mc.violated or mc.deadlock:
+        rep.drift.append("Executor.tla with Abort violates %s" % (mc.violated or "deadlock freedom"))
+    rep.cov.update({"states": mc.distinct, "transitions": mc.generated, "model_invariants_violated": sorted(set(mc.violated))})
     sh = shapes()
     seeds = [3] if tier == "quick" else [3, 11, 29, 41, 57]
     refs = []
@@ -77,7 +91,7 @@ def main(tier):
         nsp = sum(1 for e in r["events"] if e["e"] == "Spawn")
         for o in range(1, nsp + 1):
             scns.append(make(s, seed, after_fork=o))
-    results = RC.run_batch(scns, timeout=120)
+    results = RC.run_batch(scns, timeout=600)
     verdicts, traces, errs, tr = RC.judge_batch(scns, results)
     for i, r in errs:
         rep.machinery("abort run %d failed: %s" % (i, str(r)[:600]))
